@@ -48,6 +48,9 @@ pub struct Profile {
     /// the content of an inline element may begin / end with collapsible white space
     /// (<a href=x> the docs </a>)
     pub edge_space: bool,
+    /// text and inline elements written directly inside <table> / <tbody> / <tr>
+    /// (the parser foster-parents them in front of the table)
+    pub stray_in_table: bool,
 }
 
 impl Profile {
@@ -83,6 +86,7 @@ impl Profile {
             lead_br: false,
             href_controls: false,
             edge_space: false,
+            stray_in_table: false,
         }
     }
     pub fn no_tables(mut self) -> Profile {
@@ -624,7 +628,23 @@ impl<'a> DocGen<'a> {
             if p.colspans && self.rng.chance(1, 10) && cells.len() > 1 {
                 cells.pop();
             }
+            if p.stray_in_table && self.rng.chance(1, 8) {
+                // stray text / inline element between the cells of a row
+                let at = self.rng.below(cells.len() + 1);
+                let stray = if self.rng.chance(1, 2) {
+                    self.word()
+                } else {
+                    let w = self.word();
+                    El::with(*self.rng.pick(&["em", "span", "a"]), vec![w]).node()
+                };
+                cells.insert(at, stray);
+            }
             rows.push(self.deco(El::with("tr", cells)).node());
+            if p.stray_in_table && self.rng.chance(1, 10) {
+                // stray text between two rows
+                let w = self.word();
+                rows.push(w);
+            }
         }
         // a row without any cell now and then (renders nothing, but sits where the
         // markers of its row group would be parked)
